@@ -60,3 +60,9 @@ Proof. exact rollback_restores. Qed.
 Example C17_nonvacuous_journal :
   run_bcase (CJournal 512 ([217;213;5;249;32;161;99;215; 0;0;0;1; 0;0;0;7; 0;0;0;3; 0;0;0;0; 0;0;2;0] ++ repeat 0 600)) = [5001; 0; 0].
 Proof. vm_compute. reflexivity. Qed.
+
+(* a log header the reader accepts names a page size SQLite accepts (a power of two in 512..65536), in particular a
+   multiple of 8: the checksum of a frame is never asked for a misaligned byte string *)
+Theorem C17_valid_header_page_size : forall b h, wal_read_header b = HOk h ->
+  wal_ps_ok (wh_ps h) = true /\ (wh_ps h mod 8 = 0)%N.
+Proof. exact wal_header_page_size. Qed.
